@@ -35,6 +35,23 @@ func vPickScenario() (vScenario, vOp) {
 
 type vPair struct{ typ, field string }
 
+// vSelCount counts how many times every (parent type, field) pair is selected, through fragments
+func vSelCount(ss ast.SelectionSet, out map[vPair]int) {
+	for _, sel := range ss {
+		switch s := sel.(type) {
+		case *ast.Field:
+			if s.ObjectDefinition != nil {
+				out[vPair{s.ObjectDefinition.Name, s.Name}]++
+			}
+			vSelCount(s.SelectionSet, out)
+		case *ast.InlineFragment:
+			vSelCount(s.SelectionSet, out)
+		case *ast.FragmentSpread:
+			vSelCount(s.Definition.SelectionSet, out)
+		}
+	}
+}
+
 // vSelected collects the (parent type, field) pairs an operation selects, through fragments
 func vSelected(ss ast.SelectionSet, out map[vPair]bool) {
 	for _, sel := range ss {
@@ -114,6 +131,10 @@ func VerifSubRequests() {
 	clientVars := vVarsFor(cop, vars)
 
 	verifAssert(f.broken == "", "every sub-request parses and validates against the schema of the service it is sent to")
+	clientCount := map[vPair]int{}
+	vSelCount(cop.SelectionSet, clientCount)
+	subCount := map[vPair]int{}
+	seenStep := map[string]bool{}
 	covered := map[vPair]bool{}
 	for _, sub := range f.log {
 		svc := f.svcByURL(sub.url)
@@ -146,6 +167,10 @@ func VerifSubRequests() {
 				}
 			}
 		}
+		if !seenStep[sub.url+"|"+sub.query] {
+			seenStep[sub.url+"|"+sub.query] = true
+			vSelCount(sop.SelectionSet, subCount)
+		}
 		sel := map[vPair]bool{}
 		vSelected(sop.SelectionSet, sel)
 		for p := range sel {
@@ -162,7 +187,65 @@ func VerifSubRequests() {
 		}
 		verifAssert(covered[p], "every client-selected field is requested from a service that declares it: "+p.typ+"."+p.field)
 	}
+	_, _ = clientCount, subCount
+	// path-aware coverage on the plan itself: every client-selected response path is selected by the
+	// step that is inserted at (a prefix of) that path
+	doc2, _ := gqlparser.LoadQuery(f.gw.schema, op.q)
+	var sp planner.SequentialPlanner
+	plan, perr := sp.Plan(&planner.PlanningContext{Operation: doc2.Operations[0], Request: &requests.Request{Query: op.q, Variables: vars}, Schema: f.gw.schema, TypeURLMap: f.gw.typeURLMap})
+	if perr == nil {
+		planned := map[string]bool{}
+		vStepPaths(plan.RootSteps, planned)
+		wanted := map[string]bool{}
+		vSelPaths(cop.SelectionSet, "", wanted)
+		for p := range wanted {
+			verifAssert(planned[p], "every client-selected field is planned at its own response path: "+p)
+		}
+	}
 	verifReach("operation translated")
+}
+
+// vSelPaths collects the response paths (dot-joined response keys) of every field of a selection set
+func vSelPaths(ss ast.SelectionSet, base string, out map[string]bool) {
+	for _, sel := range ss {
+		switch s := sel.(type) {
+		case *ast.Field:
+			if s.Name == "__typename" {
+				continue
+			}
+			key := s.Alias
+			if key == "" {
+				key = s.Name
+			}
+			p := base + "." + key
+			out[p] = true
+			vSelPaths(s.SelectionSet, p, out)
+		case *ast.InlineFragment:
+			vSelPaths(s.SelectionSet, base, out)
+		case *ast.FragmentSpread:
+			vSelPaths(s.Definition.SelectionSet, base, out)
+		}
+	}
+}
+
+func vStepPaths(steps []*planner.QueryPlanStep, out map[string]bool) {
+	for _, st := range steps {
+		base := ""
+		for _, ip := range st.InsertionPoint {
+			base += "." + ip
+		}
+		ss := st.SelectionSet
+		if len(st.InsertionPoint) > 0 {
+			// a dependent step selects node(id: $id) { ... on T { <fields> } }: the fields sit at the insertion point
+			for _, sel := range ss {
+				if nf, ok := sel.(*ast.Field); ok && nf.Name == "node" {
+					ss = nf.SelectionSet
+				}
+			}
+		}
+		vSelPaths(ss, base, out)
+		vStepPaths(st.Then, out)
+	}
 }
 
 // vJSONNorm passes a value through the JSON codec so that numbers have one representation
@@ -179,7 +262,7 @@ const vSM1 = `
 interface Node { id: ID! }
 type Human implements Node { id: ID! name: String! }
 type Query { node(id: ID!): Node me: Human ping: String }
-type Mutation { saveHuman(name: String!): Human! ping: String }
+type Mutation { saveHuman(name: String!): Human! promote(id: ID!): Human! ping: String }
 `
 const vSM2 = `
 interface Node { id: ID! }
@@ -194,15 +277,17 @@ func vMutationWorld() *vWorld {
 	w.ents["h2"] = vEnt{"__typename": "Human", "id": "h2"}
 	w.roots["Query.me"] = vRef{"Human", "h1"}
 	w.roots["Mutation.saveHuman"] = vRef{"Human", "h2"}
+	w.roots["Mutation.promote"] = vRef{"Human", "h1"}
 	w.roots["Mutation.savePhone"] = vRef{"Human", "h1"}
 	w.roots["Mutation.bump"] = verifInt("bump", 0, 9)
 	return w
 }
 
 type vMutOp struct {
-	q     string
-	roots []string // selected mutation root fields (response keys omitted: names are unique here)
-	known string
+	q       string
+	roots   []string // selected mutation root fields (response keys omitted: names are unique here)
+	known   string
+	sibling string // another document with the same operation name, sent first
 }
 
 func vMutationOps() []vMutOp {
@@ -213,6 +298,11 @@ func vMutationOps() []vMutOp {
 		{q: `mutation { a: saveHuman(name: "x") { phone } b: saveHuman(name: "y") { phone } }`, roots: []string{"saveHuman", "saveHuman"}},
 		{q: `mutation { ping }`, roots: []string{"ping"}},
 		{q: `mutation M($n: String!) { saveHuman(name: $n) { id phone } bump }`, roots: []string{"saveHuman", "bump"}},
+		// a client variable that happens to be called id (the name the executor uses for node lookups)
+		{q: `mutation($id: ID!) { promote(id: $id) { name phone } }`, roots: []string{"promote"}},
+		// two different documents under one operation name
+		{q: `mutation Save { saveHuman(name: "x") { name } }`, roots: []string{"saveHuman"}, sibling: `mutation Save { bump }`},
+		{q: `mutation Save { bump }`, roots: []string{"bump"}, sibling: `mutation Save { saveHuman(name: "x") { name } }`},
 	}
 }
 
@@ -276,7 +366,10 @@ func VerifMutations() {
 		}
 		rounds = 2
 	}
-	vars := map[string]interface{}{"n": "x"}
+	vars := map[string]interface{}{"n": "x", "id": "h1"}
+	if op.sibling != "" {
+		f.vPost(op.sibling, vars, "")
+	}
 	for r := 0; r < rounds; r++ {
 		f.log = nil
 		for _, s := range f.svcs {
